@@ -2,6 +2,8 @@ package graph
 
 import (
 	"errors"
+
+	"github.com/99designs/gqlgen/graphql"
 	"io"
 	"strconv"
 )
@@ -82,6 +84,14 @@ type Item struct {
 func (Item) IsNode()         {}
 func (i Item) GetID() string { return i.ID }
 func (Item) IsPet()          {}
+
+// Patch distinguishes an omitted field from an explicit null.
+type Patch struct {
+	Note  graphql.Omittable[*string]
+	Count graphql.Omittable[*int]
+	Tags  graphql.Omittable[[]string]
+	Sub   graphql.Omittable[*Patch]
+}
 
 type Filter struct {
 	Min  *int
